@@ -24,6 +24,9 @@ FIXES = [
     ("34ebcaa", ["C03", "C10", "C14"], 'PikeVM copy-on-write captures leaked the writes of the preferred branch into the other branch: FindSubmatchIndex of (a)+c$ on "dac" gave [1 3 2 2], regexp [1 3 1 2]; PikeVM.SearchWithCaptures of (a)*c on "dac" gave [[1 3] [2 2]]'),
     ("ef4094b", ["C02", "C03"], 'reader APIs re-encoded an ill-formed byte as the 3 bytes of U+FFFD: FindReaderIndex of a over "\\xffa" returned [3 4], regexp [1 2]'),
     ("6119915", ["C01", "C02", "C04", "C19"], 'composite sequence DFA skipped every scanned byte after a failed attempt: [ab]+[12]+[ab]+[xy]+ found no match in "a1b2ax", regexp [2 6] (4 parts with overlapping classes)'),
+    ("2049841", ["C01", "C02", "C04", "C19"], 'digit-run skip of the digit prefilter with a sub-class of [0-9]: [0-5]+\\.\\d+ found no match in "60.2", regexp [1 4] (found by the L = 4 tier)'),
+    ("d5b594d", ["C01", "C19"], 'anchored-literal matcher compared runes U+0080..U+00FF as single bytes: ^a.*é$ did not match "aé" (found by the L = 4 tier)'),
+    ("7a2b0c0", ["C02", "C19"], 'lazy .*? treated as the greedy dot-star prefix: .*?ab on "abab" returned [0 4], regexp [0 2] (found by the L = 4 tier)'),
 ]
 for commit, props, what in FIXES:
     for p in props:
